@@ -269,7 +269,7 @@ pub fn run_one(cfg : &Config, seed : u64, k : u64, stats : &mut Stats) -> Vec<Fo
     let mut seen = BTreeSet::new();
     for v in vs
     {
-        if !seen.insert(v.sig.clone()) { continue; }
+        if !seen.insert(v.sig.clone()) || !stats.reported.insert(v.sig.clone()) { continue; }
         let sig = v.sig.clone();
         let test = move |c : &Case| run_pair(c, None).iter().any(|x| x.sig == sig);
         let small = minimize(&case, &test);
